@@ -111,6 +111,7 @@ func loadWorld(repo, tier string, tags string) (*World, error) {
 			}
 		}
 	}
+	theWorld = w
 	return w, nil
 }
 
@@ -679,4 +680,36 @@ func typeSwitchArms(fn *ssa.Function) map[*ssa.BasicBlock]map[*ssa.TypeAssert]bo
 		}
 	}
 	return val
+}
+
+// withCallees visits the instructions of the given blocks and, transitively, of the functions of package pkgKey that
+// are called statically from them (not the enclosing function itself, not the expression dispatcher): a region of
+// code together with the helpers it was split into.
+func withCallees(blocks []*ssa.BasicBlock, pkgKey string, self *ssa.Function, visit func(ssa.Instruction)) {
+	seen := map[*ssa.Function]bool{self: true}
+	var visitFn func(g *ssa.Function, depth int)
+	handle := func(in ssa.Instruction, depth int) {
+		visit(in)
+		if c, ok := in.(ssa.CallInstruction); ok {
+			if sc := staticCallee(c); sc != nil && fnPkgKey(sc) == pkgKey && !seen[sc] && depth < 6 {
+				if theWorld != nil && sc == theWorld.Roles().ExecContext {
+					return
+				}
+				seen[sc] = true
+				visitFn(sc, depth+1)
+			}
+		}
+	}
+	visitFn = func(g *ssa.Function, depth int) {
+		for _, b := range g.Blocks {
+			for _, in := range b.Instrs {
+				handle(in, depth)
+			}
+		}
+	}
+	for _, b := range blocks {
+		for _, in := range b.Instrs {
+			handle(in, 0)
+		}
+	}
 }
